@@ -87,20 +87,28 @@ type logNode struct {
 	s *spec
 }
 
+type logPrep struct {
+	st *flyt.SharedStore
+	v  any
+}
+
 func (n *logNode) Prep(ctx ctxT, st *flyt.SharedStore) (any, error) {
 	a := n.h.on(call{node: n.s, ph: pPrep, store: st, ctx: ctx})
-	return st, a.err
+	return logPrep{st: st, v: a.val}, a.err
 }
 func (n *logNode) Exec(ctx ctxT, p any) (any, error) {
-	st := p.(*flyt.SharedStore)
-	a := n.h.on(call{node: n.s, ph: pExec, attempt: 0, prepVal: nil, ctx: ctx})
-	l, _ := st.Get("log")
-	ll, _ := l.([]string)
-	st.Set("log", append(append([]string(nil), ll...), n.s.id))
+	lp, _ := p.(logPrep)
+	a := n.h.on(call{node: n.s, ph: pExec, attempt: n.h.attemptOf(n.s), prepVal: lp.v, ctx: ctx})
+	if lp.st != nil {
+		l, _ := lp.st.Get("log")
+		ll, _ := l.([]string)
+		lp.st.Set("log", append(append([]string(nil), ll...), n.s.id))
+	}
 	return a.val, a.err
 }
 func (n *logNode) Post(ctx ctxT, st *flyt.SharedStore, p, e any) (flyt.Action, error) {
-	a := n.h.on(call{node: n.s, ph: pPost, store: st, prepVal: nil, execVal: e, ctx: ctx})
+	lp, _ := p.(logPrep)
+	a := n.h.on(call{node: n.s, ph: pPost, store: st, prepVal: lp.v, execVal: e, ctx: ctx})
 	return a.action, a.err
 }
 
@@ -201,9 +209,9 @@ func genC03(tier string) []Scenario {
 		})})
 	}
 	// ---------------- A2: Connect histories (overwrites, nil, chaining form)
-	maxLen := 3
+	maxLen, maxMore := 3, 1
 	if th {
-		maxLen = 4
+		maxLen, maxMore = 4, 2
 	}
 	for first := 0; first < 12; first++ {
 		first := first
@@ -241,7 +249,7 @@ func genC03(tier string) []Scenario {
 			}
 			h.runFlowOnce(f, "run 1")
 			// re-connections AFTER a run must take effect for the next run (overwrites too)
-			more := core.Choose(3)
+			more := core.Choose(maxMore + 1)
 			for i := 0; i < more; i++ {
 				op := core.Choose(12)
 				from, a, to := op/6, acts[(op/3)%2], op%3
@@ -261,6 +269,39 @@ func genC03(tier string) []Scenario {
 			}
 			return strings.Join(h.hist, " | ")
 		})})
+	}
+	// ---------------- A4: cycles through a flow that contains itself, dead edges on the empty
+	// action, flows with retries configured on the flow: two runs of the same flow object, the
+	// first of which may be ended by a callback error (the second must start at the start node)
+	for i, d := range enumShapes(2, false) {
+		if !(d.uses(shSelfRec) || d.uses(shEmptyEdge) || d.uses(shFlowRetry) || d.base == 4) {
+			continue
+		}
+		if d.slot >= 0 && d.inner.base > 1 && d.base < numCoreShapes {
+			continue // nests: an extended outer shape with anything inside, or a core outer shape around chain1/chain2... kept small
+		}
+		if d.slot >= 0 && d.inner.slot >= 0 {
+			continue
+		}
+		d := d
+		mk := func(root *spec) (func(h *H, c call) []answer, func(h *H)) {
+			inj := injectMenu(collectActions(root), 2, false)
+			return func(h *H, c call) []answer {
+				m := inj(h, c)
+				if h.runNo == 0 {
+					return m
+				}
+				// later runs: routing only
+				var ok []answer
+				for _, a := range m {
+					if a.err == nil {
+						ok = append(ok, a)
+					}
+				}
+				return ok
+			}, nil
+		}
+		out = append(out, shapeScenarioRuns(fmt.Sprintf("routing-extended runs=2 shape#%d=%s", i, d), d, []int{kLog, kBase, kFuncA}, mk, i%2 == 0, 2))
 	}
 	return out
 }
